@@ -28,6 +28,27 @@ Theorem C10_chain_one_char : forall chains c, length (new_chain chains c) <= 1.
 Proof. exact new_chain_one_char. Qed.
 Print Assumptions C10_chain_one_char.
 
+From RV Require Import Proofs.C10More.
+From Coq Require Import Sorted.
+
+(* the fitted table satisfies the chain and residue limits and carries no insertion code *)
+Theorem C10_fitted_limits : forall is_pdb t t' r', fit is_pdb t = Fitted t' -> In r' t' ->
+    length (f_chain r') = 1 /\ (1 <= f_resseq r' <= max_pdb_residue)%Z /\ f_icode r' = [].
+Proof. exact fitted_limits. Qed.
+Print Assumptions C10_fitted_limits.
+
+(* residues of one chain are renamed one-to-one *)
+Theorem C10_residue_injective : forall t c k1 k2, In k1 (residues_of t c) -> In k2 (residues_of t c) ->
+    index_of_res k1 (residues_of t c) = index_of_res k2 (residues_of t c) -> k1 = k2.
+Proof. exact residue_renaming_injective. Qed.
+Print Assumptions C10_residue_injective.
+
+(* serials increase strictly from 1 (their upper bound is length + number of chain changes: see DESIGN.md, C10) *)
+Theorem C10_fitted_serials : forall is_pdb t t', fit is_pdb t = Fitted t' ->
+    StronglySorted Z.lt (map f_serial t') /\ forall r, In r t' -> (1 <= f_serial r)%Z.
+Proof. exact fitted_serials. Qed.
+Print Assumptions C10_fitted_serials.
+
 Definition mk (s : Z) (c : string) (n : Z) (ic : string) : frow :=
   {| f_serial := s; f_chain := L c; f_resseq := n; f_icode := L ic; f_id := Z.to_nat s |}.
 
